@@ -37,6 +37,18 @@ CHECKS = {
          'Complete for the enumerated 3-node space in the thorough tier; random exploration beyond.', 'none beyond the C09 invariants helper', '5/C13'),
  'C14': ('deepcopy equality + identity-based sharing scan + behavioural independence under generated mutation sequences on either side',
          'No counter-example in N random graphs x mutation sequences; exploration.', 'node.attributes (language-level step definition) is treated as language data.', '5/C14'),
+ 'C04': ('print-compile round trip over generated specifications with randomised layout; differential against malc output shipped in tests/testdata/*.mar; hand-written corpus with hand-derived trees; metamorphic include layouts',
+         'No counter-example in N random programs and layouts; the coreLang round trip anchors printer and compiler jointly against the reference compiler output.',
+         'Trusts the harness printer mtv/malprint.py (anchored on coreLang) and the shipped grammar; malc is not available offline.', '5/C04'),
+ 'C15': ('independent recomputation of the language-graph content from the specification (all pairs / all lookups), one-mutation ill-formed variants, over-approximation of generated attack graphs',
+         'No counter-example in N random languages (+ models) and N ill-formed variants; the two shipped languages are checked completely.',
+         'Trusts mtv/ref_lang.py; static typing of expressions for the non-triviality rule only.', '5/C15'),
+ 'C16': ('differential testing across runs: same process twice, fresh interpreters under 4 hash seeds, wrapper from .mar and from printed .mal; input snapshots',
+         'No divergence in N (language, model) pairs; hash seeds sampled.',
+         'The wrapper is compared with the API run on the model as loaded from the same file.', '5/C16'),
+ 'C17': ('token-level mutation of valid programs with the shipped grammar (counting error listener) as oracle',
+         'No malformed text accepted among N mutants that the grammar classifies as erroneous.',
+         'The generated lexer/parser shipped in the repository define the grammar; unanchored trailing text is out of scope.', '5/C17'),
 }
 NOT_APPLICABLE = {}
 
